@@ -56,6 +56,11 @@ def obligations(tier):
     for name, kw, w, k in (("WMA", dict(period=2), 1, 1), ("WMA", dict(period=3), 2, 1), ("SMA", dict(period=2), 1, None), ("EMA", dict(period=2), 1, 3), ("RMA", dict(period=2), 1, 3)):
         for late in (None, 1):
             obs.append(Ob(f"{name}{kw}/round_value=4 within {k or 'i+2'} roundings/{'signed late input' if late else 'price'}/n={w + 4}", dict(spec=["ind", name, kw], n=w + 4, tf=None, part="definition", k=k, late=late), C10.INV, fn="run_rounded", weight=20, budget_s=300))
+    # a non-default round_value: every writer of readings (calculate, calculate_index single / negative / range, recalculate,
+    # live appends) stores the reading rounded to THAT many decimals
+    for name, kw, w in (("SMA", dict(period=2), 1), ("EMA", dict(period=2), 1), ("RMA", dict(period=2), 1), ("WMA", dict(period=2), 1), ("VWMA", dict(period=2), 1), ("HMA", dict(period=4), 4)):
+        for rv in (8, 1):
+            obs.append(Ob(f"{name}{kw}/round_value={rv}: every writer rounds alike", dict(spec=["ind", name, kw], n=w + 3, tf=None, part="rounded", rv=rv), C10.INV, fn="run_rounded", weight=5, budget_s=300))
     # a fast and a slow instance of one class side by side in a Hexital: each follows its own definition
     for name, kw, sib, n in (("SMA", dict(period=3), dict(period=2), 6), ("EMA", dict(period=3), dict(period=2), 6), ("EMA", dict(period=2), dict(period=2, smoothing=3.0), 5), ("RMA", dict(period=3), dict(period=2), 6),
                              ("WMA", dict(period=3), dict(period=2), 6), ("VWMA", dict(period=3), dict(period=2), 5), ("HMA", dict(period=5), dict(period=4), 9), ("HMA", dict(period=4), dict(period=4, input_value="high"), 8)):
